@@ -101,7 +101,16 @@ Bad07 == {[tree |-> Tree07(<<H("x"), u>>), page |-> "home", d |-> Data07, tags |
                           <<Comp(Alias("ghost"), <<>>, <<>>, 1), "missing-component">>,
                           <<Comp(Ref("components/ghost"), <<Arg("a", IntL(1))>>, <<>>, 1), "missing-component">>}}
 
+(* ---------------- C10 in trees: a literal passed as insert or component argument is escaped ---------------- *)
+EscL == Lit(S("&lt;b&gt;&amp;'q'"), "\"<b>&'q'\"", "str")
+Esc10 == {[tree |-> [n \in DOMAIN Comps07 \cup {"home", "layouts/main"} |->
+                       CASE n = "home" -> Tpl(Alias("main"), <<InsertE("title", EscL, 1), InsertB("content", <<P(EscL), H("|"), Comp(Alias("plain"), <<Arg("name", EscL)>>, <<>>, 1),
+                                                                                                   H("|"), Comp(Alias("def"), <<>>, <<Sl("", <<P(Bin("+", EscL, StrL("!")))>>)>>, 1)>>, 1)>>)
+                         [] n = "layouts/main" -> Tpl(NoUse, LayA) [] OTHER -> Comps07[n]],
+            page |-> "home", d |-> Data07, tags |-> <<"c10", "tree">>]}
+
 Cases == CASE Family = "c06" -> Good06 \cup Bad06
+           [] Family = "c10tree" -> Esc10
            [] Family = "c07" -> Good07 \cup InLayout07 \cup Bad07
 
 (* ------------------------------ running a case ------------------------------ *)
